@@ -7,11 +7,12 @@
 #define REF_MAX_STREAMS 16
 typedef struct { unsigned chunks, uncompressed_chunks, dict_resets, state_resets, prop_changes; } ref_lzma2_stats;
 typedef struct {
-	unsigned streams, blocks, check, lzma2_chunks, uncompressed_chunks; size_t padding_bytes, consumed; uint32_t max_dist_used, dict_size_declared;
+	unsigned streams, blocks, check, lzma2_chunks, uncompressed_chunks, prop_changes, state_resets, dict_resets; size_t padding_bytes, consumed; uint32_t max_dist_used, dict_size_declared;
 	unsigned nst, st_first[REF_MAX_STREAMS], st_nrec[REF_MAX_STREAMS], st_check[REF_MAX_STREAMS]; size_t st_pad[REF_MAX_STREAMS], st_off[REF_MAX_STREAMS];
 	unsigned nrec_total; uint64_t rec_unp[REF_MAX_BLOCKS], rec_unc[REF_MAX_BLOCKS];
 	unsigned nblk; size_t blk_off[REF_MAX_BLOCKS]; uint64_t blk_usize[REF_MAX_BLOCKS]; unsigned blk_has_sizes[REF_MAX_BLOCKS]; uint64_t blk_chain[REF_MAX_BLOCKS]; /* signature of the Block's filter flags bytes */
 } ref_xz_info;
+extern size_t ref_progress_out;
 uint32_t ref_lzma2_dict_size(unsigned b);
 int ref_lzma2_decode(const uint8_t *in, size_t *pos, size_t n, ref_window *w, ref_lzma2_stats *st);
 int ref_xz_decode(const uint8_t *in, size_t n, uint8_t *out, size_t cap, size_t *outlen, ref_xz_info *info);
